@@ -172,6 +172,11 @@ pub fn parts(model: &Option<Sexp>) -> Option<(Sexp, Sexp, usize)> {
 /// a hand-written (program, source) pair: each mode x each debug configuration given, against the model (error variant hard).
 /// Returns the outcome classes in the order run; `None` when the implementation does not load the program.
 pub fn fixed_case(rep: &mut Report, runner: &mut Runner, tsg: &str, src: &str, debugs: &[Option<(String, String, String)>]) -> Option<Vec<String>> {
+    fixed_case_ctx(rep, runner, tsg, src, debugs, false)
+}
+
+/// as `fixed_case`; `ctx_hard`: the whole chain of error contexts must equal the model's
+pub fn fixed_case_ctx(rep: &mut Report, runner: &mut Runner, tsg: &str, src: &str, debugs: &[Option<(String, String, String)>], ctx_hard: bool) -> Option<Vec<String>> {
     use crate::gen::dsl::Program;
     use crate::props::common::{load, Loaded, Source};
     let file = match load(tsg) {
@@ -195,7 +200,7 @@ pub fn fixed_case(rep: &mut Report, runner: &mut Runner, tsg: &str, src: &str, d
     let mut classes = Vec::new();
     for debug in debugs {
         for lazy in [false, true] {
-            let res = runner.check_mode(rep, &case, &RunCfg { lazy, globals: vec![], outer_globals: vec![], debug: debug.clone(), cancel_at: None }, true, false);
+            let res = runner.check_mode(rep, &case, &RunCfg { lazy, globals: vec![], outer_globals: vec![], debug: debug.clone(), cancel_at: None }, true, ctx_hard);
             classes.push(res.class);
         }
     }
